@@ -145,6 +145,11 @@ func checkTuple(t tuple) (key, what, sig string) {
 	default:
 		return "unknown-status", name, sig
 	}
+	if t.VErr == 1 {
+		// consequence clause: a chip that withholds a listed DG14/DG15, or whose CardAccess is not contained in DG14
+		// (both are what a failed completeness check records), never produces a chip-authentic verdict
+		return "mechanism-named-although-completeness-check-failed", fmt.Sprintf("%+v names %s", t, name), sig
+	}
 	if mech != 2 {
 		return "mechanism-named-without-success", fmt.Sprintf("%+v names %s", t, name), sig
 	}
@@ -361,6 +366,15 @@ func buildHostile(h hostile) (*perso.Perso, expect, bool) {
 			ex.MustNotName = []string{"PACE-CAM"}
 		}
 		return p, ex, true
+	case "dg14-withheld-aa-intact":
+		// the chip has AA (DG15) and CA (DG14), withholds DG14 and completes AA genuinely
+		if h.Mech != "aa-rsa" && h.Mech != "aa-ec" {
+			return nil, ex, false
+		}
+		cfg.CA = []perso.CASpec{{Curve: "brainpoolP256r1", Cipher: 2, KeyID: &one}}
+		cfg.OmitFromChip = []int{14}
+		ex.MustNotTrust, ex.MustBeNoneAll = true, true
+		return perso.Build(cfg), ex, true
 	case "dg-withheld":
 		switch h.Mech {
 		case "aa-rsa", "aa-ec":
@@ -558,7 +572,7 @@ func run(c *vc.Ctx) {
 	}
 	// (3) hostile chips end to end
 	sec3 := "(3) hostile chip personalities, live and offline"
-	names := []string{"genuine", "clone-without-key", "substituted-key-pair", "dg-withheld", "untrusted-issuer", "cardaccess-not-in-dg14"}
+	names := []string{"genuine", "clone-without-key", "substituted-key-pair", "dg-withheld", "dg14-withheld-aa-intact", "untrusted-issuer", "cardaccess-not-in-dg14"}
 	c.SecBound(sec3, fmt.Sprintf("%v x access {bac,pace,cam} x mechanism {aa-rsa,aa-ec,ca,none} (genuine and dg-withheld: x hash-list order {ascending, descending, withheld-first})", names))
 	for _, n := range names {
 		for _, acc := range []string{"bac", "pace", "cam"} {
